@@ -40,7 +40,7 @@ def run_demo(d, wt, tag):
     for f in os.listdir(d):
         if f.endswith((".cpp", ".sh", ".py", ".hpp")):
             txt = open(os.path.join(d, f)).read()
-            txt = re.sub(r"/tmp/mut_C\d\d", wt, txt)
+            txt = re.sub(r"/tmp/mut\d*_C\d\d", wt, txt)
             open(os.path.join(work, f), "w").write(txt)
     if os.path.exists(os.path.join(work, "build_demo.sh")):
         rc, out = sh("bash build_demo.sh", cwd=work, timeout=1800)
